@@ -61,6 +61,7 @@ fn build_archive(path: &Path, key: &str, seed: u64) -> (Vec<String>, Vec<String>
     let mut names = Vec::new();
     let (count, shift) = match key {
         "S" => (40usize, 5u16),
+        "N" => (30, 5), // the archive WITHOUT a (listfile)
         "E" => (60, 4),
         "L" => (1300, 3), // 4 KiB sectors: the long members are multi-sector
         _ => (0, 5),
@@ -97,6 +98,9 @@ fn build_archive(path: &Path, key: &str, seed: u64) -> (Vec<String>, Vec<String>
         text.push_str("\r\n(listfile)\r\n");
         std::fs::write(&lf, text).unwrap_or_else(|e| tool_error(&format!("write listfile: {e}")));
         b = b.listfile_option(wow_mpq::ListfileOption::External(lf));
+    }
+    if key == "N" {
+        b = b.listfile_option(wow_mpq::ListfileOption::None);
     }
     b.build(path).unwrap_or_else(|e| tool_error(&format!("building {key}: {e}")));
     (names, unlisted)
@@ -153,13 +157,14 @@ fn build_world(dir: &Path, seed: u64, intern: &mut Interner) -> WorldX {
             }
         }
     };
-    for key in ["S", "E", "L"] {
+    // provenance of the listing: S, E external listfile omitting files; L generated listfile; N no listfile at all
+    for key in ["S", "E", "L", "N"] {
         let path = dir.join(format!("{key}.mpq"));
         let (files, unlisted) = build_archive(&path, key, seed);
         let base = seqtok.len() + 1;
         seq_read(&path, key, &files, &mut ids, &mut seqtok);
         seq_read(&path, key, &unlisted, &mut ids, &mut seqtok);
-        seq_read(&path, key, &["(listfile)".to_string()], &mut ids, &mut seqtok);
+        seq_read(&path, key, &["(listfile)".to_string()], &mut ids, &mut seqtok); // (in N: a name the archive lacks)
         arch.insert(key.to_string(), Arch { path, files, unlisted, base });
     }
     // the generations of G: each is written to THE path, read sequentially there (the reference), then replaced
